@@ -25,8 +25,8 @@ over 76 node classes; what is proved is layered:
 * **L3 set operations** `C01_partial_union`: every parenthesis-free chain `a OP b OP c …` round-trips;
   `C01_witness_union`: a chain with a parenthesised right operand is accepted but does NOT
   (the rules `select : ( select ) | ( union )` drop the grouping).
-* **L1 atoms**: C04 package (`Props/C04.lean`); here only the two atom defects that C04 does not list:
-  `C01_witness_parameter`, `C01_witness_variable`.
+* **L1 atoms**: C04 package (`Props/C04.lean`); here the two atom printers repaired in /repo as regression
+  obligations: `C01_regress_parameter`, `C01_regress_variable`.
 
 Glue between the layers that is NOT proved (named here, exercised by the round-trip oracle of
 `tools/props/c01.py` on the real code):
@@ -122,24 +122,25 @@ theorem C01_partial_expr_sqlite : C03.RoundTrip Gen.Prec_sqlite.P := C03.roundtr
 theorem C01_partial_expr_mysql : C03.RoundTrip Gen.Prec_mysql.P := C03.roundtrip_mysql
 theorem C01_partial_expr_mindsdb : C03.RoundTrip Gen.Prec_mindsdb.P := C03.roundtrip_mindsdb
 
-/-! ## L1 witnesses not listed under C04 -/
+/-! ## L1 atoms repaired in /repo (fa4fc42, 6a738d8): regression obligations on the model of the printers
+(`Lex.parameterToString`, `Lex.variableToString` transcribe the repaired `get_string`s; the former defects —
+`SELECT ?` printed `:?`, ``@`a b` `` printed `@a b` — are fixed known findings KF-C01-1 / KF-C01-6) -/
 
-/-- `SELECT ?`: `Parameter.get_string` prints `:?`, which does not start with the PARAMETER lexeme
-(and `:` starts no token of the sqlite / mysql lexers) -/
-theorem C01_witness_parameter :
-    Lex.parameterToString ['?'] = [':', '?'] ∧ (Lex.parameterToString ['?']).head? ≠ some '?' := by
-  decide
+/-- `SELECT ?`: the placeholder prints as the PARAMETER lexeme -/
+theorem C01_regress_parameter : Lex.parameterToString ['?'] = ['?'] := by decide
 
 example : Gen.Lex_sqlite.PARAMETER = "\\?" := by decide
 example : Gen.Lex_mysql.PARAMETER = "\\?" := by decide
 example : Gen.Lex_mindsdb.PARAMETER = "\\?" := by decide
 
-/-- ``SELECT @`a b` ``: the variable named `a b` prints as `@a b`, which is lexed as the variable `a`
-followed by ` b` -/
-theorem C01_witness_variable :
-    Lex.lexVariable ['@', '`', 'a', ' ', 'b', '`'] = some (false, ['a', ' ', 'b'], []) ∧
-    Lex.variableToString false ['a', ' ', 'b'] = ['@', 'a', ' ', 'b'] ∧
-    Lex.lexVariable (Lex.variableToString false ['a', ' ', 'b']) = some (false, ['a'], [' ', 'b']) := by
+/-- quoted variable names are printed quoted and lexed back to the same name with nothing left over
+(plain, blank inside, back-quote inside, system variable) -/
+theorem C01_regress_variable :
+    Lex.lexVariable (Lex.variableToString false ['a', ' ', 'b']) = some (false, ['a', ' ', 'b'], []) ∧
+    Lex.variableToString false ['a', ' ', 'b'] = ['@', '`', 'a', ' ', 'b', '`'] ∧
+    Lex.lexVariable (Lex.variableToString false ['a', '.', 'b']) = some (false, ['a', '.', 'b'], []) ∧
+    Lex.lexVariable (Lex.variableToString false ['a', '`', 'b']) = some (false, ['a', '`', 'b'], []) ∧
+    Lex.lexVariable (Lex.variableToString true ['x', ' ', 'y']) = some (true, ['x', ' ', 'y'], []) := by
   decide
 
 /-! ## non-vacuity -/
